@@ -22,12 +22,55 @@
     }
 #endif
 
+// ---------------------------------------------------------------------------------------
+// verification hooks. They are inert unless the environment variable STRENGTHS_VERIF is "1"
+// at the time a hook is installed: a normal build/run behaves exactly as without them.
+#include <cstdlib>
+#include <cstring>
+typedef long long (*verif_clock_fn)();
+static verif_clock_fn verif_clock = NULL;   // virtual millisecond clock used by engineexport_run
+static long long verif_loop_cap = 0;        // max passes of the redistribution correction loop (0 = unbounded)
+static long long verif_loop_count = 0;      // passes used by the last set-up
+static int verif_status = 0;                // bit 0 : the correction loop hit verif_loop_cap
+
+static bool VerifEnabled()
+  {
+  const char * e = std::getenv("STRENGTHS_VERIF");
+  return (e != NULL && std::strcmp(e, "1") == 0);
+  }
+
+extern "C" int engineexport_verif_set_clock(verif_clock_fn f)
+  {
+  if(!VerifEnabled()) return 1;
+  verif_clock = f;
+  return 0;
+  }
+
+extern "C" int engineexport_verif_set_loopcap(long long cap)
+  {
+  if(!VerifEnabled()) return 1;
+  verif_loop_cap = cap;
+  return 0;
+  }
+
+extern "C" int engineexport_verif_status()
+  {
+  return verif_status;
+  }
+
+extern "C" long long engineexport_verif_loopcount()
+  {
+  return verif_loop_count;
+  }
+// ---------------------------------------------------------------------------------------
+
 std::vector<double> GenerateStochasticDistribution (std::vector<double> mesh_x, int n_meshes, int n_species, int seed)
   {
   /// generate a poisson distributed stochastic state that respects the floored total quantities of the input floating point state.
 
   std::mt19937 rng(seed);
   std::uniform_real_distribution<double> uiud(0, 1);
+  verif_loop_count = 0; verif_status &= ~1; // verification hook
 
   std::vector<double> mesh_x_sto = std::vector<double>(mesh_x.size(), 0);
   std::vector<double> tot_species(n_species, 0);
@@ -96,6 +139,7 @@ std::vector<double> GenerateStochasticDistribution (std::vector<double> mesh_x, 
 
     for(;;)
       {
+      if(verif_loop_cap > 0 && ++verif_loop_count > verif_loop_cap) {verif_status |= 1; break;} // verification hook
       double cumul = 0;
       double target = uiud(rng) * tot_species[s];
 
@@ -442,11 +486,13 @@ extern "C" int engineexport_run(int breathe_dt)
     {
     bool unfinished = true;
     auto t0 = std::chrono::system_clock::now();
+    long long verif_t0 = (verif_clock != NULL) ? verif_clock() : 0; // verification hook
     for(;;)
         {
         if      (global_space_type == 0) unfinished = global_grid_algo->Iterate();
         else if (global_space_type == 1) unfinished = global_graph_algo->Iterate();
         int dt = static_cast<int>(std::chrono::duration_cast<std::chrono::milliseconds>(std::chrono::system_clock::now() - t0).count());
+        if(verif_clock != NULL) dt = static_cast<int>(verif_clock() - verif_t0); // verification hook
         if(!unfinished || dt>=breathe_dt)
             break;
         }
